@@ -79,6 +79,21 @@ def _cases(tier):
                        "cfg": "ir+pydantic+dc", "dkr": [r"k\d"]}
             else:
                 yield {"h": [["J", {"a": [{"t": a}, {"u": 1}]}], ["J", {"a": [{"t": b}]}]], "cfg": "ir+pydantic+dc"}
+    # string grammar (shared with C09): every string alone, through the IR judge and the generated pydantic model (the framework's
+    # own parser decides whether the annotated type admits the exact string that was observed)
+    from props import c09
+    gram = [(cls, st) for cls, st in c09.grammar(tier) if len(st) < 60]
+    for cls, st in gram:
+        yield {"h": [["S", cls, st]], "cfg": "ir+pydantic"}
+    reps, seen = [], set()
+    for cls, st in gram:
+        k = (A.string_form(cls, st), core.jdump(c09.accept_row(st)))
+        if k not in seen:
+            seen.add(k)
+            reps.append((cls, st))
+    for (c1, s1), (c2, s2) in itertools.combinations(reps, 2):
+        # two observations of one field: one representative per (reference form, accept signature)
+        yield {"h": [["S", c1, s1], ["S", c2, s2]], "cfg": "ir+pydantic"}
     # literal-limit axis
     for ml in (0, 1, 2, 3):
         for h in A.histories(["lit_a", "lit_b", "long", "null", "s_int", A.ABSENT], 3):
@@ -106,6 +121,8 @@ def _field_values(case):
             fv.setdefault("b", set()).add(s[2])
         elif s[0] == "K":
             fv.setdefault("*", set()).update({"key:" + s[1], s[2]})
+        elif s[0] == "S":
+            fv.setdefault("a", set()).add(A.string_form(s[1], s[2]))
         else:
             fv.setdefault("*", set()).add(A.symbol_name(s))
     return fv
